@@ -619,6 +619,19 @@ def Y4(ctx):
     else:
         ctx.bad("Y4", "rt::atomic::fence_seqcst", "a SeqCst fence must acquire (and release) before it joins the global SC clock: otherwise what the "
                 "fence acquires never reaches later SC fences of other threads", prog.fns[where].loc(), detail="order")
+    # an AcqRel / SeqCst fence acquires first and takes its release snapshot afterwards: what the very same fence acquires must be
+    # part of what later relaxed stores publish
+    for (nm, val) in (("AcqRel", 3), ("SeqCst", 4)):
+        ea3 = EventAnalysis(prog, _table_matcher, assume=assume_discr(ups[0], val)).solve([root])
+        m3 = ea3.must_of(root)
+        if m3 is TOP or not {"fence_acq", "fence_rel"} <= set(m3):
+            continue        # the table check above reports a missing half
+        if ea3.must_before(root, "fence_acq", "fence_rel"):
+            ctx.bad("Y4", "rt::atomic::fence", "fence(%s) takes its release snapshot (`released = causality`) before it has acquired: the "
+                    "clocks the fence itself acquires are missing from what later relaxed stores publish" % nm,
+                    prog.fns[fn_key].loc(), detail="acq-before-rel-" + nm)
+        else:
+            ctx.ok("Y4", "fence[%s]:acq-before-rel" % nm, "acquire half precedes the release snapshot", [prog.fns[fn_key].loc()])
     # seq_cst_fence joins in both directions
     fn = need_fn(ctx, "Y4", "rt::thread::Set::seq_cst_fence")
     if fn is not None:
